@@ -510,6 +510,9 @@ def sweep_cases(tier):
                     continue
                 out.append({'sweep': sk, 'design': d, 'wall': wall,
                             'L': 0.06 if tier == 'quick' else 0.12})
+        # [Setup] se2geo = True (another corner geometry), walls heated
+        for sk in ('r1', 'r2', 'multi'):
+            out.append({'sweep': sk, 'design': d, 'wall': 'flow', 'se2': True, 'L': 0.06 if tier == 'quick' else 0.12})
         # a long march of very small steps (wall temperature changes by a few hundredths of a kelvin per step)
         for wall in ('none', 'flow'):
             out.append({'sweep': 'r1', 'design': d, 'wall': wall, 'fine': True, 'L': 0.06 if tier == 'quick' else 0.12})
@@ -531,6 +534,8 @@ def run_sweep(c):
               fam=['CTD', 'CTD', 'CTD'], power='asym', L=c['L'])
     scn = c01.build_scn(cc, dz_user=(c['L'] / 2400.0 if c.get('fine') else None))
     scn['types']['A']['duct_material'] = 'ss316'
+    if c.get('se2'):
+        scn['setup']['se2geo'] = True
     scn['power']['asm']['1']['fr'] = {'duct': 0.25}
     dsn = scn['types']['A']
     ftf = sorted(dsn['duct_ftf'])
@@ -611,7 +616,13 @@ def run_sweep(c):
                     if pd is None:
                         q3 = np.zeros(ncell)
                     else:
-                        qa = np.array([float(reg.duct_params['q_area'][i][ty]) for ty in ctype])
+                        # heated cross-section of a wall cell = thickness x width of its outer face (flat plate):
+                        # an edge cell is one pin pitch wide, a corner cell the rest of the hexagon side at the
+                        # outer flat-to-flat (own geometry, not the code's q_area table)
+                        nr_ = reg.n_ring
+                        w_edge = float(reg.pin_pitch)
+                        w_corner = dftf[i][1] / math.sqrt(3.0) - (nr_ - 1) * w_edge
+                        qa = np.array([t * (w_edge if ty == 0 else w_corner) for ty in ctype])
                         q3 = pd[i * ncell:(i + 1) * ncell] / qa
                 else:
                     Tci, hi = sn['Tc'], sn['h']
@@ -698,6 +709,78 @@ def run_sweep(c):
 
 
 # ----------------------------------------------------------------------
+# part `core`: the outer boundary condition handed to every wall in a real core
+def core_cases(tier):
+    # a six-cell wall ring whose six neighbours have the same mesh (every wall cell then faces the same mix of gap cells)
+    # and rings in mixed surroundings
+    lays = [['U'] + ['A'] * 6, ['S'] + ['B'] * 6, ['U', 'A', 'B', 'A', None, 'C', 'A'], ['S', 'B', 'U', None, 'A', 'D', 'B'],
+            ['A', 'U', 'U', 'B', 'U', None, 'C']]
+    if tier != 'quick':
+        lays += [['U', 'B', None, None, 'A', None, 'C'], ['D', 'U', 'S', 'B', 'A', 'U', 'C'], ['B', 'A', 'U', 'S', 'D', 'C', 'A']]
+    out = []
+    for lay in lays:
+        for gm in ('flow', 'no_flow', 'duct_average'):
+            out.append({'core': True, 'layout': lay, 'gap_model': gm, 'gapfrac': 0.05, 'max_steps': 40 if tier == 'quick' else 80})
+    return out
+
+
+def run_core(c):
+    """In a core the outer coolant of a wall cell is the set of gap cells it faces.  The wall is solved against one film
+    coefficient and one temperature per wall cell (checked cell by cell in part `sweep`); the flux it sends out,
+    h_i (Ts - T_i), equals the flux to those gap cells each with its own film coefficient, sum_j M_ij h_j (Ts - T_j), for
+    every surface temperature iff h_i = sum_j M_ij h_j and h_i T_i = sum_j M_ij h_j T_j (M = the region's gap-to-duct map,
+    rows summing to one - C10).  Checked on the arrays the Reactor hands to every assembly at every step."""
+    from . import c02
+    from .. import observe as O
+    r = new_result()
+    V = r['violations']
+    scn = c02.build_scn(c)
+    worst = 0.0
+    with S.Built(scn) as b:
+        rx = b.reactor()
+        core = rx.core
+        nonuni = [0]
+
+        def wrap(ai, asm):
+            orig = asm.calculate
+
+            def calc(dz, t_gap, h_gap, *a, **kw):
+                reg = asm.active_region
+                M = np.asarray(reg._map['gap2duct'], dtype=float)
+                hj = np.asarray(core.adjacent_coolant_gap_htc(ai), dtype=float)
+                Tj = np.asarray(core.adjacent_coolant_gap_temp(ai), dtype=float)
+                h_own = M @ hj
+                hT_own = M @ (hj * Tj)
+                tg = np.asarray(t_gap, dtype=float)
+                hg = np.asarray(h_gap, dtype=float) * np.ones_like(tg)
+                if float(np.ptp(hj[hj > 0])) > 1e-9 * float(np.max(hj)) and float(np.ptp(Tj[hj > 0])) > 1e-6:
+                    nonuni[0] += 1
+                sc_ = max(float(np.max(np.abs(hT_own))), 1e-30)
+                dev = max(float(np.max(np.abs(hg - h_own))) / max(float(np.max(h_own)), 1e-30),
+                          float(np.max(np.abs(hg * tg - hT_own))) / sc_)
+                r['states'] += len(tg)
+                if dev > 1e-11 and not V:
+                    V.append(violation('outer-boundary-not-flux-consistent', dict(c, asm=ai, z=float(getattr(asm, '_z', 0.0))),
+                                       'assembly %d (%s region): the film coefficient / temperature handed to the wall cells '
+                                       'are not the film-weighted means over the gap cells each wall cell faces, so the '
+                                       'outer flux of the wall solution is not the flux to those gap cells'
+                                       % (ai, 'pin-bundle' if reg.is_rodded else reg.model), dev, 0.0, 1e-11,
+                                       site='reactor.py:_calculate_asm_temperatures'))
+                return orig(dz, t_gap, h_gap, *a, **kw)
+            asm.calculate = calc
+        for ai, asm in enumerate(rx.assemblies):
+            wrap(ai, asm)
+        O.sweep(rx, None, max_steps=c['max_steps'])
+        n = min(len(rx.z) - 1, c['max_steps'])
+    r['transitions'] = n
+    r['traces'] = 1
+    r['nontrivial'] = nonuni[0] > 0
+    r['outcome'] = 'ok' if not V else 'violation'
+    r['info'] = {'wall_solves_with_non_uniform_gap': nonuni[0]}
+    return r
+
+
+# ----------------------------------------------------------------------
 def main(run):
     run.rule = ('slab: full product kind x rings x conductivity x thickness x innermost film level (one case '
                 'each) x film-coefficient levels of the other layers x temperature pattern x wall heating x gap-htc form x adiabatic (enumerated '
@@ -717,6 +800,7 @@ def main(run):
     res2 = run.explore('sweep', sw, run_sweep, budget_s=600, chunksize=1)
     # the csv dump of this property's field: every row is the recorded field of that assembly at that plane
     from . import reports as _rep
+    run.explore('core', core_cases(run.tier), run_core, budget_s=300, chunksize=1)
     run.explore('report-dumps', _rep.cases_dumps(run.tier), _rep.run_dumps_C11, budget_s=300)
     # vacuity
     ex = run.extra
@@ -747,8 +831,11 @@ def replay(body):
         from . import reports
         return reports.replay(body)
     sc = dict(body['scenario'])
-    if 'sweep' in sc:
-        c = {k: sc[k] for k in ('sweep', 'design', 'wall', 'L')}
+    if sc.get('core'):
+        c = {k: sc[k] for k in ('core', 'layout', 'gap_model', 'gapfrac', 'max_steps')}
+        r = guarded(run_core, c, 600)
+    elif 'sweep' in sc:
+        c = {k: sc[k] for k in ('sweep', 'design', 'wall', 'L', 'ftf', 'fine', 'se2') if k in sc}
         r = guarded(run_sweep, c, 600)
     else:
         c = {k: sc[k] for k in ('kind', 'rings', 'k', 't_mm', 'film0', 'tier') if k in sc}
